@@ -113,7 +113,15 @@ pub fn run(seed: u64, n: usize, out: &mut Out, focus_tags: bool) {
         // complete-regex (/re/) rules need a per-query external answer: not used in histories
         lines.retain(|l| !is_complete_regex(l));
         let optimize = r.pct(50);
-        let mut engine = Engine::from_rules_parametrised(&lines, Default::default(), true, optimize);
+        // per-host cosmetic rules of every kind ride along: reloads and incremental updates must keep them
+        let cos: Vec<String> = if r.pct(50) {
+            let h = r.pick(&["cdn.test", "shop.test", "x.cdn.test", "other.net"]).to_string();
+            crate::cosm::host_bundle(&mut r, &h, "a.js")
+        } else {
+            vec![]
+        };
+        let with_cos = |net: &[String]| -> Vec<String> { net.iter().cloned().chain(cos.iter().cloned()).collect() };
+        let mut engine = Engine::from_rules_parametrised(&with_cos(&lines), Default::default(), true, optimize);
         engine.use_resources(resources.clone());
         let mut accepted: Vec<String> = lines.iter().filter(|l| parse_net(l, true).is_some()).cloned().collect();
         if accepted.is_empty() {
@@ -126,10 +134,13 @@ pub fn run(seed: u64, n: usize, out: &mut Out, focus_tags: bool) {
         let mut tags: BTreeSet<String> = BTreeSet::new();
         let mut reloaded = false;
         let mut saw_generichide = false;
+        // after a rule stored under several buckets is added, every bucket is probed at once
+        let mut forced: Vec<(String, String, String)> = vec![];
         let long = r.pct(20);
         let steps = 3 + r.below(if long { 55 } else { 14 });
         for _ in 0..steps {
-            let k = r.below(100);
+            // queries owed to the last mutation come first (see `forced`)
+            let k = if forced.is_empty() { r.below(100) } else { 99 };
             if k < 28 {
                 // tag operation
                 let mut ts: Vec<String> = vec![];
@@ -199,6 +210,15 @@ pub fn run(seed: u64, n: usize, out: &mut Out, focus_tags: bool) {
                     hist.push(json!({"add_filter": line, "ok": res.is_ok()}));
                     if res.is_ok() {
                         accepted.push(line.clone());
+                        if let Some(d) = line.split("domain=").nth(1) {
+                            let ty = line.split('$').nth(1).and_then(|o| o.split(',').next()).unwrap_or("script").to_string();
+                            for dom in d.split(',').next().unwrap().split('|') {
+                                let dom = dom.trim_start_matches('~');
+                                if !dom.is_empty() {
+                                    forced.push((format!("https://cdn.test/{}", r.pick(&["x1", "x/k", "px/a.png"])), format!("https://{}/", dom), if ty.contains('=') { "script".to_string() } else { ty.clone() }));
+                                }
+                            }
+                        }
                     }
                     out.case(&format!("hadd\t{}", dump_rule(&f, false)), if res.is_ok() { "1" } else { "0" }, json!({"history": hist.clone()}), true);
                     out.bump(if res.is_ok() { "add_filter_ok" } else { "add_filter_rejected" });
@@ -215,7 +235,7 @@ pub fn run(seed: u64, n: usize, out: &mut Out, focus_tags: bool) {
                 for _ in 0..r.below(3) {
                     ts.push(r.pick(&tagpool).to_string());
                 }
-                let mut producer = Engine::from_rules_parametrised(&accepted, Default::default(), true, optimize);
+                let mut producer = Engine::from_rules_parametrised(&with_cos(&accepted), Default::default(), true, optimize);
                 producer.use_tags(&ts.iter().map(|s| s.as_str()).collect::<Vec<_>>());
                 let bytes = producer.serialize_raw().unwrap();
                 engine.deserialize(&bytes).unwrap();
@@ -234,8 +254,12 @@ pub fn run(seed: u64, n: usize, out: &mut Out, focus_tags: bool) {
                 }
             } else {
                 // query
-                let (mut u, s, t) = gen::cluster_url(&mut r, &accepted);
-                if r.pct(35) {
+                let was_forced = !forced.is_empty();
+                let (mut u, s, t) = match forced.pop() {
+                    Some(f) => f,
+                    None => gen::cluster_url(&mut r, &accepted),
+                };
+                if !was_forced && r.pct(35) {
                     u = format!("https://cdn.test/{}", r.pick(&["x1", "x2", "adframe/a.gif", "adimg/x/click?u=1", "track/x", "px/a.png", "px/a.png?v=1", "adimg/b.png/more", "track/q.png", "track/q.png;x", "adframe/z.png", "adframe/z.png?", "adframe^x", "a/adimg.png", "adframe/a", "adframe/b", "adframe/c", "adframe/d", "adimg/a", "adimg/b", "adimg/c", "adimg/d"]));
                 }
                 if !u.is_ascii() {
@@ -248,7 +272,7 @@ pub fn run(seed: u64, n: usize, out: &mut Out, focus_tags: bool) {
                 let csp_q = r.pct(25);
                 hist.push(json!({"query": if csp_q {"csp"} else {"check"}, "url": u, "source": s, "type": t}));
                 // oracle: a freshly built engine
-                let mut fresh = Engine::from_rules_parametrised(&accepted, Default::default(), true, optimize);
+                let mut fresh = Engine::from_rules_parametrised(&with_cos(&accepted), Default::default(), true, optimize);
                 fresh.use_resources(resources.clone());
                 fresh.use_tags(&tags.iter().map(|s| s.as_str()).collect::<Vec<_>>());
                 let has_rp = accepted.iter().any(|l| l.contains("removeparam="));
@@ -271,12 +295,16 @@ pub fn run(seed: u64, n: usize, out: &mut Out, focus_tags: bool) {
                     out.case(&format!("hchk\t{}\t{}", dump_store(&resources), q.dump), &show_verdict(&v), json!({"history": hist.clone(), "class": class}), nontrivial);
                 }
                 // cosmetic answers after the history equal those of the fresh engine
-                if r.pct(10) || saw_generichide {
+                if r.pct(10) || saw_generichide || !cos.is_empty() {
                     let a = engine.url_cosmetic_resources(&u);
                     let b = fresh.url_cosmetic_resources(&u);
-                    if a.generichide != b.generichide || a.hide_selectors != b.hide_selectors {
-                        out.fail("history-vs-fresh-engine(cosmetic)", None, json!({"history": hist.clone()}));
+                    if a.generichide != b.generichide || a.hide_selectors != b.hide_selectors || a.procedural_actions != b.procedural_actions
+                        || a.exceptions != b.exceptions || a.injected_script != b.injected_script {
+                        out.fail("history-vs-fresh-engine(cosmetic)", None, json!({"history": hist.clone(), "cosmetic_rules": cos, "url": u,
+                            "after_history": {"hide": a.hide_selectors.len(), "procedural": a.procedural_actions.len(), "exceptions": a.exceptions.len(), "script": a.injected_script},
+                            "fresh": {"hide": b.hide_selectors.len(), "procedural": b.procedural_actions.len(), "exceptions": b.exceptions.len(), "script": b.injected_script}}));
                     }
+                    out.bump("cosmetic_history_probes");
                 }
             }
         }
